@@ -134,3 +134,21 @@ Theorem C05_holds_codec_sound :
   forall k, holds_codec k = true -> codec_domain k = true -> e_rec k = Ok (e_tbl k).
 Proof. exact holds_codec_sound. Qed.
 Print Assumptions C05_holds_codec_sound.
+
+(* read(samples) of a written file: exactly the requested samples that exist, in file order *)
+Theorem C05_bp_roundtrip_subset :
+  forall (parse_int parse_flt : str -> res Z) (fmt_int fmt_flt : Z -> str) (samples : option (list str)) (d : ctable),
+  Forall (wf_sample parse_int parse_flt fmt_int fmt_flt) d -> NoDup (map fst d) ->
+  bp_read parse_int parse_flt samples (bp_write fmt_int fmt_flt d) =
+  Ok (filter (fun sb => selected samples (fst sb)) d).
+Proof. exact bp_roundtrip_subset. Qed.
+Print Assumptions C05_bp_roundtrip_subset.
+
+(* a comment line (first token starts with '#') changes nothing, wherever it stands *)
+Theorem C05_comments_ignored :
+  forall (parse_int parse_flt : str -> res Z) (samples : option (list str))
+         (ls1 : list (list str)) (c : str) (rest : list str) (ls2 : list (list str)),
+  first_char_is c_hash c = true ->
+  bp_read parse_int parse_flt samples (ls1 ++ (c :: rest) :: ls2) = bp_read parse_int parse_flt samples (ls1 ++ ls2).
+Proof. exact comments_ignored. Qed.
+Print Assumptions C05_comments_ignored.
